@@ -139,13 +139,23 @@ pub fn main() {
             // resets first) are replayed up to three times in this process: the same case after
             // itself is a legitimate longer history, and a defect that needs an operation to
             // have happened before (a second reset, a second expiry) shows from the second run.
-            let runs = if part.forked || part.fresh_process { 1 } else { 3 };
-            let mut out = (part.run)(&bytes, tier);
+            // Free-running parts (real threads, interleaving not reproducible) get twelve attempts.
+            let runs = if matches!(part.name, "stress" | "firstuse") {
+                12
+            } else if part.forked || part.fresh_process {
+                1
+            } else {
+                3
+            };
+            // a first-use race exists once per process: every attempt in its own pristine child
+            let per_child = part.name == "firstuse";
+            let once = |b: &Vec<u8>| if per_child { infra::run_forked(|| (part.run)(b, tier)) } else { (part.run)(b, tier) };
+            let mut out = once(&bytes);
             for _ in 1..runs {
                 if out.violation.is_some() {
                     break;
                 }
-                out = (part.run)(&bytes, tier);
+                out = once(&bytes);
             }
             println!("case: {}", serde_json::to_string(&(part.describe)(&bytes, tier)).unwrap());
             match out.violation {
